@@ -118,7 +118,49 @@ def rule_d3(ctx, facts):
                 gate = cd["local"]
         problems = []
         if gate is None:
-            problems.append("park is not guarded by a flag")
+            # no private flag: the park may instead be gated by the WAITER bit of the lock word itself, provided that bit is only ever set
+            # by this function's own CAS and every won CAS publishes the handle before the word is looked at again -- then `WAITER is set`
+            # means `I announced myself and my handle is published`
+            ev3 = evaluator(b)
+            bit_edges = []
+            for blk in range(len(b.blocks)):
+                cd = cond_of(b, blk)
+                if not cd or cd["kind"] != "cmp" or cd["op"] not in ("Eq", "Ne"):
+                    continue
+                for aa, bb3 in ((cd["a"], cd["b"]), (cd["b"], cd["a"])):
+                    fb3 = ev3.operand(bb3)
+                    al = op_local(aa)
+                    if fb3 is TOP or not fb3.is_const() or fb3.c != 0 or al is None:
+                        continue
+                    for pt3, kind3, data3 in b.defs.get(al, []):
+                        if kind3 == "assign" and data3["rv"].get("bin") == "BitAnd":
+                            ops3 = [data3["rv"]["a"], data3["rv"]["b"]]
+                            if any(o.get("int") == WAITER for o in ops3) and any(
+                                    x is not None and x.point in {l.point for l in loads} for o in ops3 if op_root(o) is not None for x in fl.call_roots(op_root(o))):
+                                bit_edges.append((blk, cd["false"] if cd["op"] == "Eq" else cd["true"]))
+            setters = [c for c in cass if sets_bit(b, c, WAITER)]
+            foreign = []
+            for ob in facts.bodies:
+                if ob.id == b.id:
+                    continue
+                for c in ob.calls:
+                    if ("node::TreeBin", "lock_state") in receiver_field(ob, c, 0) and is_std_atomic(c) in ("fetch_or", "compare_exchange", "store", "swap") \
+                            and (sets_bit(ob, c, WAITER) or any((a.get("int") or 0) & WAITER for a in c.args)):
+                        foreign.append(c)
+            if bit_edges and dominated_by_edge(b, pk.point, bit_edges) and setters and not foreign and publish:
+                for c in setters:
+                    oke, _ = ok_edge_generic(b, c)
+                    if not oke:
+                        problems.append("the result of the CAS that sets WAITER is not tested")
+                        continue
+                    r = reach(b, [Point(oke[1], 0)], avoid={p.point for p in publish})
+                    if pk.point in r or any(l.point in r for l in loads):
+                        problems.append("after setting WAITER a path re-reads the lock word or parks before the thread handle is published")
+                r = reach(b, after(b, pk.point, label="ret"), avoid={l.point for l in loads})
+                if any(c.point in r for c in cass) or any(rp in r for rp in return_points(b)):
+                    problems.append("after park a path acts (CAS / return) without re-loading the lock word")
+            else:
+                problems.append("park is guarded neither by a private flag nor by the WAITER bit of a lock word only this function sets")
         else:
             tdefs = [pt for pt, kind, data in b.defs.get(gate, []) if not (kind == "assign" and "use" in data["rv"] and data["rv"]["use"].get("int") == 0)]
             if not tdefs:
@@ -171,6 +213,68 @@ def rule_d3(ctx, facts):
     ctx.inst("D3", where[0] if where else "node::TreeBin::find", "last reader unparks the waiter", where[1].span if where else "src/node.rs", ok,
              "decrement result == READER|WAITER leads to unpark" if ok else
              "no reader path unparks the waiting writer when its decrement returns READER|WAITER: the writer can sleep forever")
+
+
+def rule_d8(ctx, facts):
+    """the park handshake is a store-buffering (Dekker) pattern: the waiting writer announces itself (WAITER bit, thread handle) and then
+    re-reads the lock word; the last reader decrements the lock word and then reads the handle.  'Either the reader sees the handle or the
+    writer sees the decrement' only follows when all four accesses are SeqCst (one total order); with a weaker re-read the writer may
+    read a stale reader count and park with nobody left to wake it (allowed by the memory model; Miri exhibits it -- finding F7)."""
+    from .rules_c15 import ordering_of
+    LS, WT = ("node::TreeBin", "lock_state"), ("node::TreeBin", "waiter")
+    parks = [(b, c) for b in facts.bodies for c in b.calls if callee_str(c).endswith("thread::park") and not b.is_cleanup(c.b)]
+    if not parks:
+        ctx.fail_closed("D8: no park site")
+        return
+
+    def ords(b, c):
+        return [o for o in (ordering_of(b, a) for a in c.args) if isinstance(o, str)]
+    n = 0
+    for b in {pb.id: pb for pb, _ in parks}.values():
+        # writer side: every load of the lock word in the waiting loop, and the handle publication
+        for c in b.calls:
+            if b.is_cleanup(c.b):
+                continue
+            if is_std_atomic(c) == "load" and LS in receiver_field(b, c, 0):
+                n += 1
+                o = ords(b, c)
+                ok = o == ["SeqCst"]
+                ctx.inst("D8", b, "waiter re-reads the lock word SeqCst", c.span, ok,
+                         "SeqCst" if ok else "the waiting writer re-reads lock_state with %s: it may see a stale reader count after announcing itself and park although "
+                         "the last reader has already left without seeing its handle (lost wakeup under the memory model)" % (o or "a non-constant ordering"))
+            if is_reclaim_atomic(c) == "swap" and WT in receiver_field(b, c, 0):
+                fl = flow(b)
+                fresh = op_root(c.args[1]) is not None and any(x is not None and callee_str(x).endswith("Shared::boxed") for x in fl.call_roots(op_root(c.args[1])))
+                if fresh:
+                    n += 1
+                    o = ords(b, c)
+                    ok = o == ["SeqCst"]
+                    ctx.inst("D8", b, "handle published SeqCst", c.span, ok, "SeqCst" if ok else "the thread handle is published with %s" % o)
+            if is_std_atomic(c) == "compare_exchange" and LS in receiver_field(b, c, 0) and sets_bit(b, c, facts.const("WAITER")):
+                n += 1
+                o = ords(b, c)
+                ok = bool(o) and o[0] == "SeqCst"
+                ctx.inst("D8", b, "WAITER announced SeqCst", c.span, ok, "SeqCst" if ok else "the CAS that sets WAITER succeeds with %s" % o)
+    # reader side
+    for rb in facts.bodies:
+        for c in rb.calls:
+            if is_std_atomic(c) in ("fetch_add", "fetch_sub") and LS in receiver_field(rb, c, 0) and not rb.is_cleanup(c.b):
+                r = reach(rb, after(rb, c.point, label="ret"))
+                unparks = [x for x in rb.calls if callee_str(x).endswith("Thread::unpark") and x.point in r]
+                if not unparks:
+                    continue
+                n += 1
+                o = ords(rb, c)
+                ok = o == ["SeqCst"]
+                ctx.inst("D8", rb, "reader gives the count back SeqCst", c.span, ok, "SeqCst" if ok else "the reader's decrement of lock_state is %s" % o)
+                for x in rb.calls:
+                    if is_reclaim_atomic(x) == "load" and WT in receiver_field(rb, x, 0) and x.point in r:
+                        n += 1
+                        o = ords(rb, x)
+                        ok = o == ["SeqCst"]
+                        ctx.inst("D8", rb, "reader reads the handle SeqCst", x.span, ok, "SeqCst" if ok else "the reader loads the waiter handle with %s" % o)
+    if n < 5:
+        ctx.fail_closed("D8: expected the five accesses of the park handshake (re-read, WAITER CAS, handle swap, decrement, handle load), found %d" % n)
 
 
 def ok_edge_generic(body, cas):
@@ -249,7 +353,7 @@ def rule_tree_write_lock(ctx, facts, rule="L11"):
         ctx.fail_closed("%s: expected the two write-lock CAS sites (lock_root, contended_lock), found %d" % (rule, n))
 
 
-def rule_d4(ctx, facts):
+def rule_d4(ctx, facts, rule="D4"):
     for name in ("map::HashMap::init_table", "map::HashMap::try_presize"):
         b = facts.body(name)
         ev = evaluator(b)
@@ -260,7 +364,7 @@ def rule_d4(ctx, facts):
                 continue
             oke, erre = ok_edge(b, c)
             if not oke:
-                ctx.inst("D4", b, "init ticket", c.span, False, "the result of the size_ctl CAS to -1 is not tested")
+                ctx.inst(rule, b, "init ticket", c.span, False, "the result of the size_ctl CAS to -1 is not tested")
                 continue
             r = reach(b, [Point(oke[1], 0)], avoid=stores)
             leaks = [rp for rp in return_points(b) if rp in r] + ([c.point] if c.point in r else [])
@@ -271,7 +375,7 @@ def rule_d4(ctx, facts):
                     f = ev.operand(s.args[1])
                     if f is not TOP and f.is_const() and f.c < 0:
                         neg.append(s)
-            ctx.inst("D4", b, "init ticket released", c.span, not leaks and not neg,
+            ctx.inst(rule, b, "init ticket released", c.span, not leaks and not neg,
                      "every path from the won CAS stores a value back into size_ctl before leaving" if not leaks and not neg else
                      ("a path leaves with size_ctl == -1: every later operation that needs the table spins forever" if leaks else
                       "a negative constant is stored back at %s" % neg[0].span))
@@ -286,7 +390,7 @@ def rule_d4(ctx, facts):
                 r = reach(it, [Point(cd["true"], 0)])
                 if any(callee_str(x).endswith("thread::yield_now") and x.point in r for x in it.calls):
                     ok = True
-    ctx.inst("D4", it, "losers yield and retry", it.span, ok, "sc < 0 leads to yield_now and back to the loop head" if ok else
+    ctx.inst(rule, it, "losers yield and retry", it.span, ok, "sc < 0 leads to yield_now and back to the loop head" if ok else
              "a thread that loses the initialisation race does not yield/retry")
 
 
@@ -358,6 +462,11 @@ def run(ctx, facts):
     rule_d6(ctx, facts)
     ctx.rule("D1", "no bin-lock acquisition (direct or through callees) while a bin lock is held", floor=11)
     ctx.rule("D2", "tree write lock: paired on all paths, nothing locked inside, its users called only under the bin lock", floor=4)
+    ctx.rule("D9", "every loop reachable from a read entry point has a progress witness (rule B3 of C12): lookups and iterators terminate by their own steps", floor=5)
+    from .rules_c12 import rule_reader_loops
+    rule_reader_loops(ctx, facts, "D9")
+    ctx.rule("D8", "park handshake: WAITER CAS, handle publication, lock-word re-read, reader decrement and handle load are all SeqCst", floor=5)
+    rule_d8(ctx, facts)
     ctx.rule("D3", "park protocol of the contended tree lock; reader unparks on READER|WAITER", floor=2)
     ctx.rule("D4", "initialisation ticket (size_ctl == -1) released on every path; losers yield and retry", floor=3)
     ctx.rule("D5", "writers that meet a forwarding marker retry in a current table (rule L4)", floor=4)
